@@ -344,7 +344,7 @@ func checkDialect(dc dialCase) (fw.Outcome, *fw.Violation) {
 	if spAfter == spellOpen || after.malformed() != "" || (dc.Op == "update" && (dc.Col < 0 || dc.Col >= d.ncols())) || (dc.Op == "insert" && len(dc.NewRow) != d.ncols()) {
 		return fw.Outcome{Discard: true}, nil
 	}
-	o := after.outcome()
+	o := after.outcome(false)
 	o.Classes = append(o.Classes, "op:"+dc.Op)
 	o.Fingerprint = fmt.Sprintf("%s|%s|sess:%s,%s|%s", d.dialectString(), dc.Op, dc.SessLB, dc.SessEnc, strings.Join(after.contentClasses(), ","))
 	r, err := getRunner()
@@ -471,7 +471,7 @@ func checkDialect(dc dialCase) (fw.Outcome, *fw.Violation) {
 
 func TestC02DialectPreserved(t *testing.T) {
 	fw.Run(t, fw.Spec[dialCase]{
-		ID: "C02", Name: "dialect_preserved", Quick: 220, Thorough: 4400,
+		ID: "C02", Name: "dialect_preserved", Quick: 400, Thorough: 8000,
 		Gen: genDialect, Check: checkDialect,
 		Rule: "a table file written by the harness's own writers in dialect D = (CSV with , ; | TAB / TSV / LTSV / FIXED explicit or single-line / JSON / JSONL) x encoding incl. byte order mark x line break x header-or-not x all-quoted-or-not, cells from the token alphabet (spellable in D); one UPDATE of a column or INSERT of a row + COMMIT through the real binary with the matching import options while the session's export flags (--line-break, --write-encoding, --write-delimiter, --enclose-all, --without-header) say something else; oracle on the committed bytes, read by the harness: decode strictly in D's encoding and BOM convention, every line break including the last is D's, delimiter and header convention are D's, data = edited table; then a fresh csvq process must load the same table from the file; non-trivial always (non-default dialect or special content), distinct by (D, op, session line break/encoding, content classes)",
 		Assumptions: []string{"column names are plain identifiers (the edit is written in SQL)", "the line break of JSON and JSON Lines files is not asserted (csvq does not detect it; for JSON it is insignificant white space)",
@@ -527,7 +527,7 @@ func checkOut(c rtCase) (fw.Outcome, *fw.Violation) {
 	if why := c.malformed(); why != "" || len(c.allRows()) == 0 || !in(c.Path, []string{"out", "stdout"}) {
 		return fw.Outcome{Discard: true}, nil
 	}
-	o := c.outcome()
+	o := c.outcome(false)
 	o.Classes = append(o.Classes, "path:"+c.Path)
 	if k := c.knownShape(); k != "" {
 		o.Classes = append(o.Classes, "knownshape:"+k)
@@ -617,9 +617,9 @@ func checkOut(c rtCase) (fw.Outcome, *fw.Violation) {
 
 func TestC02OutPaths(t *testing.T) {
 	fw.Run(t, fw.Spec[rtCase]{
-		ID: "C02", Name: "out_paths", Quick: 220, Thorough: 4400,
+		ID: "C02", Name: "out_paths", Quick: 400, Thorough: 8000,
 		Gen: genOut, Check: checkOut,
-		Rule: "the tables and option vectors of roundtrip_inproc (>= 1 record; 9% past 4 KiB / 64 KiB), loaded by the real binary from a JSON source file and written with -f FORMAT and the export options to --out FILE or to stdout; oracle: a non-zero exit leaves the --out file absent and stdout empty (and must not happen for a spellable table); otherwise the bytes satisfy the independent readers including csvq's own ending line break (decodes in the encoding, every line break is the configured one) and a fresh csvq process loads the same table from them with the matching import options; non-trivial as in roundtrip_inproc, distinct by (path, dialect, content classes)",
+		Rule:        "the tables and option vectors of roundtrip_inproc (>= 1 record; 6% past 4 KiB / 64 KiB), loaded by the real binary from a JSON source file and written with -f FORMAT and the export options to --out FILE or to stdout; oracle: a non-zero exit leaves the --out file absent and stdout empty (and must not happen for a spellable table); otherwise the bytes satisfy the independent readers including csvq's own ending line break (decodes in the encoding, every line break is the configured one) and a fresh csvq process loads the same table from them with the matching import options; non-trivial as in roundtrip_inproc, distinct by (path, dialect, content classes)",
 		Assumptions: []string{"single-line fixed-length data is only written to --out (on stdout csvq appends a line break for the terminal)", "the source is a JSON file with backslashes spelled \\u005C (loader defect json_trailing_backslash_unloadable)"},
 	})
 }
